@@ -11,6 +11,7 @@ import (
 	"fmt"
 	"os"
 	"path/filepath"
+	"runtime/pprof"
 	"sort"
 	"strconv"
 	"strings"
@@ -78,6 +79,7 @@ var (
 	onlyEntry = flag.String("entry", "", "run only this entry")
 	noReplay = flag.Bool("noreplay", false, "skip native replay")
 	evidenceOut = flag.String("evidence", "", "evidence file (default <verif>/evidence/<id>.json)")
+	cpuprofile  = flag.String("cpuprofile", "", "write a CPU profile")
 )
 
 func main() {
@@ -110,7 +112,16 @@ func main() {
 	if r := os.Getenv("VERIF_REPO"); r != "" {
 		*repoDir = r
 	}
+	if *cpuprofile != "" {
+		f, err := os.Create(*cpuprofile)
+		if err == nil {
+			pprof.StartCPUProfile(f)
+		}
+	}
 	code := run(flag.Arg(0))
+	if *cpuprofile != "" {
+		pprof.StopCPUProfile()
+	}
 	os.Exit(code)
 }
 
